@@ -38,7 +38,11 @@ fn c19(seed: u64, cases: usize, model_path: &str) -> serde_json::Value {
     let mut dist: BTreeMap<String, u64> = BTreeMap::new(); let mut distinct = std::collections::BTreeSet::new();
     let mut disagreements = vec![]; let mut impl_vs_oracle = vec![]; let mut samples = vec![]; let mut steps = 0u64;
     for case in 0..cases {
-        let (s, ops, kind) = gen_case(&mut r, 12);
+        // corpus first: chunk lengths of the size `mpc` uses (a batch is at least 1 000 elements), around powers of two and the batch boundaries
+        let big = [1000usize, 1024, 1025, 1500, 2049, 3101];
+        let (s, ops, kind) = if case < big.len() { let s = big[case]; let mut next = 0u64; let mut mk = |k: usize| Op::Append((0..k).map(|_| { next += 1; next }).collect());
+                (s, vec![mk(s), Op::Chunks(s, 0), mk(s), Op::Chunks(s, 1), mk(s / 3 + 1), Op::Chunks(s, 0), Op::Chunks(s, 2), Op::Iter(usize::MAX >> 1), Op::Iter(s + 1)], "regular-large") }
+            else { gen_case(&mut r, 12) };
         *dist.entry(format!("kind:{kind}")).or_default() += 1; *dist.entry(format!("len:{}", ops.len())).or_default() += 1;
         let mut file = VBuf::new(Some(dir.path()), 0).unwrap(); let mut mem = VBuf::new(None, 0).unwrap();
         assert_eq!(m.ask("buf reset"), "ok");
@@ -113,7 +117,16 @@ fn c19m(seed: u64, _cases: usize, model_path: &str, thorough: bool) -> serde_jso
     let dir = tempfile::tempdir_in("/var/tmp").unwrap();
     let mut dist: BTreeMap<String, u64> = BTreeMap::new(); let mut distinct = std::collections::BTreeSet::new();
     let mut disagreements = vec![]; let mut failures = vec![]; let mut samples = vec![]; let mut execs = 0u64;
-    let ands: &[usize] = if thorough { &[0, 1, 7, 999, 1000, 1001, 1200, 2000, 2100, 3300, 9500] } else { &[0, 3, 1000, 1001, 1200, 2100, 3100] };
+    let ands: &[usize] = if thorough { &[0, 1, 7, 999, 1000, 1001, 1200, 2000, 2100, 3300, 9500, 18_500] } else { &[0, 3, 1000, 1001, 1200, 2100, 3100, 9300] };   // 9 300: batches of 1 034
+    // the last batch falls below a bucket-size threshold the full batches are above: 27 901 ANDs = eight batches of 3 101 (bucket size 4) and one of
+    // 3 093 (bucket size 5); 27 900 = nine equal batches of 3 100. All in memory, two parties.
+    for a in if thorough { vec![27_900usize, 27_901, 27_955] } else { vec![27_901usize] } {
+        let n = 2; let c = circ::and_chain(n, a); let inputs: Vec<Vec<bool>> = c.input_regs.iter().map(|k| (0..*k).map(|_| r.bool()).collect()).collect(); let oracle = c.eval(&inputs);
+        let args: Vec<PartyArgs> = (0..n).map(|p| PartyArgs { inputs: inputs[p].clone(), p_eval: 0, p_own: p, p_out: vec![0, 1], tmp_dir: None }).collect();
+        let run = exec::run(&c, &args, &RunCfg { cap: 1024, sched: Sched::RoundRobin, keep_payloads: false }, None); execs += 1;
+        *dist.entry(format!("ands:{a}")).or_default() += 1; distinct.insert(format!("{n}/{a}/batch-threshold"));
+        for p in 0..n { if run.outs[p] != Out::Ok(oracle.clone()) { failures.push(json!({"witness": "C19:mpc-result-depends-on-tmp_dir", "failure": format!("honest run with {a} ANDs (last batch below the bucket-size threshold of the full batches): party {p} returned {} (clear text {})", short(&run.outs[p]), circ::bits(&oracle)), "case": {"n": n, "ands": a}})); break; } }
+    }
     for (ci, &a) in ands.iter().enumerate() {
         let n = if ci % 3 == 2 { 3 } else { 2 }; let c = circ::and_chain(n, a);
         let inputs: Vec<Vec<bool>> = c.input_regs.iter().map(|k| (0..*k).map(|_| r.bool()).collect()).collect();
@@ -330,6 +343,24 @@ fn c08(seed: u64, cases: usize, _model_path: &str, thorough: bool) -> serde_json
         if biggest > 64 * len.max(1) + (1 << 20) + 4 * base_peak_hint() { failures.push(json!({"witness": "C08:alloc", "failure": format!("single allocation of {biggest} bytes for a {len}-byte message"), "case": desc})); }
         if samples.len() < 3 { samples.push(json!({"case": desc, "victim": short(o)})); }
     }
+    // an INNER length prefix inflated (the outer element count stays right): every 8-byte field after the first that reads as a plausible length
+    // (non-zero, not larger than what follows) is set to 1 GiB, one at a time (the first four per phase), both victim roles. A decoder that
+    // reserves what a prefix claims before it has seen the bytes allocates out of all proportion to the message.
+    { let mut phases: Vec<String> = vec![]; for (ph, _) in &adv_msgs { if !phases.contains(ph) { phases.push(ph.clone()); } }
+      for ph0 in phases { for pe in 0..2 { for j in 0..4usize {
+        let ph1 = ph0.clone(); let hit = std::rc::Rc::new(std::cell::Cell::new((false, 0usize, 0usize))); let hit2 = hit.clone();
+        let m: exec::Mutator = Box::new(move |from, _to, ph, kk, d| { if from != 1 || ph != ph1 || kk != 0 || d.len() < 24 { return Some(d); }
+            let cands: Vec<usize> = (8..d.len() - 8).filter(|i| { let v = u64::from_le_bytes(d[*i..*i + 8].try_into().unwrap()); v > 0 && v as usize <= d.len() - i - 8 }).collect();
+            match cands.get(j) { Some(&i) => { let mut v = d.clone(); v[i..i + 8].copy_from_slice(&(1u64 << 30).to_le_bytes()); hit2.set((true, i, d.len())); Some(v) } None => Some(d) } });
+        ptverif::alloc_count::reset();
+        let run = exec::run(&c, &mk(pe), &cfg, Some(m)); let (was_hit, off, len) = hit.get(); if !was_hit { continue; } execs += 1;
+        let biggest = ptverif::alloc_count::biggest(); let o = &run.outs[0];
+        *dist.entry("class:inner_len_huge".into()).or_default() += 1; distinct.insert((pe, ph0.clone(), "inner_len_huge", okind(o)));
+        let desc = json!({"victim_is_evaluator": pe == 0, "phase": ph0, "orig_len": len, "class": "inner_len_huge", "offset": off});
+        if let Out::Panic(msg) = o { failures.push(json!({"witness": "C08:other-panic", "failure": format!("victim panicked: {msg}"), "case": desc})); }
+        if matches!(o, Out::Blocked) && !matches!(run.outs[1], Out::Blocked) { failures.push(json!({"witness": "C08:hang", "failure": "victim blocked although its peer has terminated", "case": desc})); }
+        if biggest > 64 * len.max(1) + (1 << 20) + 4 * base_peak_hint() { failures.push(json!({"witness": "C08:alloc", "failure": format!("single allocation of {biggest} bytes for a {len}-byte message (inner length prefix at offset {off} set to 1 GiB)"), "case": desc})); }
+      } } } }
     // structure-aware classes on nested vectors
     let nested: Vec<(&str, &str)> = vec![("fashare ver", "inner_empty"), ("fashare ver", "inner_short"), ("dvalue", "bits_short"), ("dvalue", "macs_short"), ("preprocessed gates", "rows_empty"), ("preprocessed gates", "rows_corrupt"), ("labels", "label_flip"), ("CO_OT_r", "point_invalid"), ("ALSZ_OT_setup", "rows_short"),
         // optional fields present where they should be absent, and absent where they should be present, in every `Vec<Option<_>>` message
@@ -593,6 +624,77 @@ fn c04(seed: u64, cases: usize, _model_path: &str) -> serde_json::Value {
         let pre_err = match o { Out::Err(e) => e.contains("Preprocessing") || e.contains("WrongMAC") || e.contains("XorNotZero") || e.contains("Commitment") || e.contains("Broadcast") || e.contains("KOS") || e.contains("InvalidBitValue"), _ => false };
         if !pre_err { failures.push(json!({"witness": format!("C04:accepted-unverified-multi:{phase}"), "failure": format!("{} authenticated Boolean fields of one `{phase}` message were flipped (MACs unchanged) and the victim did not reject it in preprocessing: {}", offs.len(), short(o)), "case": desc})); }
         if samples.len() < 3 { samples.push(json!({"case": desc, "victim": short(o)})); }
+    } }
+    // ---- (a3) a WITHHELD element: the peer sends one authenticated value, or one MAC, fewer than the receiver needs (inner vectors; the
+    // channel layer only checks the outer length). The values that are still there are all correct. The victim must reject in preprocessing:
+    // a check that walks the shorter of two vectors (zip) verifies nothing about the rest.
+    let withheld: Vec<(&str, &str)> = vec![("dvalue", "last_mac_of_first_bucket"), ("dvalue", "last_mac_of_last_bucket"), ("dvalue", "last_bit_of_first_bucket"), ("dvalue", "last_bit_and_mac_of_first_bucket"),
+        ("dvalue", "first_mac_of_first_bucket"), ("fashare ver", "last_byte_of_first_row"), ("fashare ver", "last_byte_of_last_row")];
+    for (phase, what) in withheld { for victim in [0usize, 1] { let n = 2; let c = mk_circ2(n); let adv = 1 - victim;
+        let args: Vec<PartyArgs> = (0..n).map(|p| PartyArgs { inputs: vec![r.bool()], p_eval: 0, p_own: p, p_out: (0..n).collect(), tmp_dir: None }).collect();
+        let (ph, wh) = (phase.to_string(), what.to_string()); let hit = std::rc::Rc::new(std::cell::Cell::new(false)); let hit2 = hit.clone();
+        let m: exec::Mutator = Box::new(move |from, to, p, k, d| { if from != adv || to != victim || p != ph || k != 0 { return Some(d); }
+            hit2.set(true);
+            Some(if ph == "dvalue" { let mut v: Vec<(Vec<bool>, Vec<u128>)> = de(&d); let last = v.len() - 1;
+                    match wh.as_str() { "last_mac_of_first_bucket" => { v[0].1.pop(); } "last_mac_of_last_bucket" => { v[last].1.pop(); } "last_bit_of_first_bucket" => { v[0].0.pop(); }
+                        "first_mac_of_first_bucket" => { v[0].1.remove(0); } _ => { v[0].0.pop(); v[0].1.pop(); } } ser(&v) }
+                else { let mut v: Vec<Vec<u8>> = de(&d); let last = v.len() - 1; if wh == "last_byte_of_first_row" { v[0].pop(); } else { v[last].pop(); } ser(&v) }) });
+        let run = exec::run(&c, &args, &RunCfg { cap: 1, sched: Sched::RoundRobin, keep_payloads: false }, Some(m)); execs += 1;
+        if !hit.get() { continue; }
+        let o = &run.outs[victim]; *dist.entry(format!("withheld:{phase}")).or_default() += 1; distinct.insert(format!("withheld/{phase}/{what}/{victim}"));
+        let desc = json!({"n": n, "phase": phase, "withheld": what, "victim": victim});
+        let pre_err = match o { Out::Err(e) => e.contains("Preprocessing") || e.contains("WrongMAC") || e.contains("XorNotZero") || e.contains("Commitment") || e.contains("InvalidLength"), _ => false };
+        if let Out::Panic(msg) = o { failures.push(json!({"witness": "C04:panic", "failure": format!("victim panicked: {msg}"), "case": desc})); }
+        else if !pre_err { failures.push(json!({"witness": format!("C04:accepted-withheld:{phase}"), "failure": format!("the peer withheld the {what} of its `{phase}` message (everything it did send is correct) and the victim did not reject it in preprocessing: {}", short(o)), "case": desc})); }
+    } }
+    // ---- (a4) MIRRORED commitment: a rushing peer lies in the leaky-AND round (flips one of its `e` bits), then waits for the honest party's
+    // `flaand comm` message and sends the very same commitments back, and later echoes the honest party's opening (`flaand hash`) as its own.
+    // Every echoed commitment opens correctly and the XOR of the two identical openings is zero, so a check value that is not bound to its
+    // sender verifies nothing. The victim must still reject the lie in preprocessing. (n - 1 colluding peers: one echoes, the others send zeros.)
+    for (n, victim) in [(2usize, 0usize), (2, 1), (3, 0), (3, 2)] { let c = mk_circ(n); let adv = (victim + 1) % n;
+        let args: Vec<PartyArgs> = (0..n).map(|p| PartyArgs { inputs: vec![r.bool()], p_eval: 0, p_own: p, p_out: (0..n).collect(), tmp_dir: None }).collect();
+        let saved: std::rc::Rc<std::cell::RefCell<std::collections::HashMap<String, Vec<u8>>>> = Default::default(); let (sv, sv2) = (saved.clone(), saved.clone());
+        let state = std::rc::Rc::new(std::cell::Cell::new(0u32)); let (st, st2) = (state.clone(), state.clone());
+        // send side: remember what the victim has sent; tell the lie
+        let m: exec::Mutator = Box::new(move |from, to, p, k, mut d| { if k != 0 { return Some(d); }
+            if p == "flaand comm" || p == "flaand hash" { sv.borrow_mut().entry(format!("{p}/{from}")).or_insert(d.clone()); return Some(d); }
+            if from == adv && to == victim && p == "flaand" && d.len() > 8 && d[8] <= 1 { d[8] ^= 1; st.set(st.get() | 1); }
+            Some(d) });
+        // delivery side (rushing): what the victim receives as the peers' first `flaand comm` / `flaand hash` is made from its own message
+        let seen: std::rc::Rc<std::cell::RefCell<std::collections::HashSet<(usize, usize, String)>>> = Default::default();
+        exec::set_recv_rewrite(Some(Box::new(move |at, from, p, d| { if !(p == "flaand comm" || p == "flaand hash") || !seen.borrow_mut().insert((at, from, p.to_string())) { return d; }
+            // the adversary's own copy of the code would notice its own lie and stop; a real adversary just carries on: its checks are made to pass the same way
+            let own = sv2.borrow().get(&format!("{p}/{at}")).cloned(); let Some(x) = own else { return d; };
+            if at != victim { return if from == victim || n == 2 { x } else { d }; }
+            if from == adv { st2.set(st2.get() | if p == "flaand comm" { 2 } else { 4 }); return x; }
+            // the other colluding peers: commitments to zero / zero openings, same shape as the honest message
+            if p == "flaand hash" { let v: Vec<u128> = de(&x); return ser(&vec![0u128; v.len()]); }
+            let v: Vec<[u8; 32]> = de(&x); let z: [u8; 32] = *blake3::hash(&0u128.to_be_bytes()).as_bytes(); ser(&vec![z; v.len()]) })));
+        let run = exec::run(&c, &args, &RunCfg { cap: 1024, sched: Sched::RoundRobin, keep_payloads: false }, Some(m)); execs += 1;
+        exec::set_recv_rewrite(None);
+        if state.get() != 7 { *dist.entry(format!("mirror:not-applied(state {})", state.get())).or_default() += 1; continue; }
+        let o = &run.outs[victim]; *dist.entry("mirror:flaand".into()).or_default() += 1; distinct.insert(format!("mirror/{n}/{victim}"));
+        let desc = json!({"n": n, "victim": victim, "adversary_echoes": adv, "lie": "one e bit of `flaand` flipped", "echoed": ["flaand comm", "flaand hash"]});
+        let pre_err = match o { Out::Err(e) => e.contains("XorNotZero") || e.contains("CommitmentCouldNotBeOpened") || e.contains("WrongMAC"), _ => false };
+        if !pre_err { failures.push(json!({"witness": "C04-e:flaand-commitment-mirrored", "failure": format!("the peer lied about an e bit and echoed the victim's own commitments and openings back: the leaky-AND check passed, the victim went on: {}", short(o)), "case": desc})); }
+        if samples.len() < 4 { samples.push(json!({"case": desc, "victim": short(o)})); }
+    }
+    // ---- (a5) the same echo against the aShare consistency check (`fashare comm` / `fashare ver` / `fashare di_bi`) and the coin tossing
+    // (`RNG comm` / `RNG ver`): a peer that sends the victim's own messages of these rounds back must be rejected
+    // (the coin-toss commitments contain the sender id; the aShare decommitment carries MACs under the victim's own key).
+    for (group, phases) in [("ashare", vec!["fashare comm", "fashare ver", "fashare di_bi"]), ("cointoss", vec!["RNG comm", "RNG ver"])] { for victim in [0usize, 1] { let n = 2; let c = mk_circ(n); let adv = 1 - victim;
+        let args: Vec<PartyArgs> = (0..n).map(|p| PartyArgs { inputs: vec![r.bool()], p_eval: 0, p_own: p, p_out: (0..n).collect(), tmp_dir: None }).collect();
+        let saved: std::rc::Rc<std::cell::RefCell<std::collections::HashMap<String, Vec<u8>>>> = Default::default(); let (sv, sv2) = (saved.clone(), saved.clone());
+        let applied = std::rc::Rc::new(std::cell::Cell::new(0u32)); let ap = applied.clone(); let (ph1, ph2) = (phases.clone(), phases.clone());
+        let m: exec::Mutator = Box::new(move |from, _to, p, k, d| { if k == 0 && ph1.contains(&p) { sv.borrow_mut().entry(format!("{p}/{from}")).or_insert(d.clone()); } Some(d) });
+        let seen: std::rc::Rc<std::cell::RefCell<std::collections::HashSet<(usize, String)>>> = Default::default();
+        exec::set_recv_rewrite(Some(Box::new(move |at, _from, p, d| { if !ph2.contains(&p) || !seen.borrow_mut().insert((at, p.to_string())) { return d; }
+            match sv2.borrow().get(&format!("{p}/{at}")) { Some(x) => { if at == victim { ap.set(ap.get() + 1); } x.clone() } None => d } })));
+        let run = exec::run(&c, &args, &RunCfg { cap: 1024, sched: Sched::RoundRobin, keep_payloads: false }, Some(m)); execs += 1; exec::set_recv_rewrite(None);
+        if applied.get() == 0 { *dist.entry(format!("mirror:{group}:not-applied")).or_default() += 1; continue; }    // (a rejection may come before the last echoed round)
+        let o = &run.outs[victim]; *dist.entry(format!("mirror:{group}")).or_default() += 1; distinct.insert(format!("mirror/{group}/{victim}"));
+        let rejected = match o { Out::Err(e) => e.contains("WrongMAC") || e.contains("CommitmentCouldNotBeOpened") || e.contains("XorNotZero") || e.contains("Broadcast") || e.contains("KOS"), _ => false };
+        if !rejected { failures.push(json!({"witness": format!("C04:mirrored:{group}"), "failure": format!("the peer echoed the victim's own {phases:?} messages back and the victim did not reject them: {}", short(o)), "case": {"n": n, "victim": victim}})); }
     } }
     // ---- (b) ordering under many schedules
     let rounds = [("RNG comm", "RNG ver"), ("fashare comm", "fashare ver"), ("fashare comm", "fashare di_bi"), ("flaand comm", "flaand hash")];
